@@ -17,7 +17,8 @@ Notation copy_steps := (copy_steps chunker).
 
 Lemma plan_ok_app S a : plan_ok S a -> forall b, plan_ok S b -> plan_ok S (a ++ b).
 Proof.
-  induction 1 as [|c rest Hc Hrest IH|q rest Hrest IH|p mt chunks m rest Hne HS Hrest IH]; intros b Hb; cbn [app].
+  unfold plan_ok.
+  induction 1 as [|c rest Hc Hk Hrest IH|q rest Hrest IH|p mt chunks m rest Hne HS Hk Hrest IH]; intros b Hb; cbn [app].
   - exact Hb.
   - apply pk_cmd; auto.
   - apply pk_fetch; auto.
@@ -26,21 +27,21 @@ Qed.
 
 Lemma copy_steps_ok S e : plan_ok S (copy_steps S e).
 Proof.
-  destruct e as [p [[mt sz| |k t] r]]; cbn [Sync.copy_steps].
+  unfold plan_ok. destruct e as [p [[mt sz| |k t] r]]; cbn [Sync.copy_steps].
   - destruct (fget S p) as [[m data| |tt kk]|] eqn:E; try (apply pk_fetch; apply pk_nil).
     apply pk_fetch. rewrite <- (app_nil_r (chunk_cmds p mt (chunker data))).
     destruct (chunker_ok data) as [Hne Hcat].
-    apply (pk_file S p mt (chunker data) m []); [exact Hne|rewrite Hcat; exact E|apply pk_nil].
-  - apply pk_cmd; [reflexivity|apply pk_nil].
-  - apply pk_cmd; [reflexivity|apply pk_nil].
+    apply (pk_file S any_cmd any_file p mt (chunker data) m []); [exact Hne|rewrite Hcat; exact E|exact I|apply pk_nil].
+  - apply pk_cmd; [reflexivity|exact I|apply pk_nil].
+  - apply pk_cmd; [reflexivity|exact I|apply pk_nil].
 Qed.
 
 Lemma exec_steps_ok S a : plan_ok S (exec_steps S a).
 Proof.
   unfold Sync.exec_steps. apply plan_ok_app.
-  - induction (a_delete a) as [|e l IH]; cbn [map]; [apply pk_nil|].
-    apply pk_cmd; [|exact IH]. destruct e as [p [[mt sz| |k t] r]]; reflexivity.
-  - induction (a_copy a) as [|e l IH]; cbn [flat_map]; [apply pk_nil|].
+  - unfold plan_ok. induction (a_delete a) as [|e l IH]; cbn [map]; [apply pk_nil|].
+    apply pk_cmd; [|exact I|exact IH]. destruct e as [p [[mt sz| |k t] r]]; reflexivity.
+  - induction (a_copy a) as [|e l IH]; cbn [flat_map]; [apply (pk_nil S any_cmd any_file)|].
     apply plan_ok_app; [apply copy_steps_ok|exact IH].
 Qed.
 
@@ -96,14 +97,14 @@ Qed.
 Lemma sync_plan_ok cfg S D ans bits ls ld : plan_ok S (snd (sync_plan cfg S D ans bits ls ld)).
 Proof.
   unfold sync_plan. cbv zeta.
-  destruct (fget S []) as [sn|]; [|apply pk_nil].
+  destruct (fget S []) as [sn|]; [|apply (pk_nil S any_cmd any_file)].
   set (pre := match option_map entry_of (fget (d_fs D) []) with
               | None => if cf_dry cfg then [] else [DestCmd CCreateRootAncestors] | Some _ => [] end).
   assert (Hpre : plan_ok S pre).
-  { unfold pre. destruct (option_map entry_of (fget (d_fs D) [])); [apply pk_nil|].
-    destruct (cf_dry cfg); [apply pk_nil|apply pk_cmd; [reflexivity|apply pk_nil]]. }
+  { unfold pre, plan_ok. destruct (option_map entry_of (fget (d_fs D) [])); [apply pk_nil|].
+    destruct (cf_dry cfg); [apply pk_nil|apply pk_cmd; [reflexivity|exact I|apply pk_nil]]. }
   clearbody pre.
-  match goal with |- context [match ?g with Some _ => _ | None => (_, []) end] => destruct g end; [|apply pk_nil].
+  match goal with |- context [match ?g with Some _ => _ | None => (_, []) end] => destruct g end; [|apply (pk_nil S any_cmd any_file)].
   destruct (actions_of _ _ _) as [acts|]; [|exact Hpre].
   destruct (confirm _ _ _) as [|acts' ? ? ? ?]; [exact Hpre|].
   destruct (cf_dry cfg); [exact Hpre|].
